@@ -21,6 +21,9 @@ LIST_PROPS = {
     'C12': dict(kinds=ALL_KINDS, flags=[]),
     'C13': dict(kinds=ALL_KINDS, flags=[]),
     'C15': dict(kinds=['raw'], flags=[]),
+    # panic injection at every call into user code (Hash, Eq, Clone, Drop, hasher, callback, KeyHasher)
+    'C18': dict(kinds=ALL_KINDS, flags=['--faults', '--tok', '--audit', '--quarantine', '--drop', '--no-ro'], no_random_only=True,
+                quick_max_states=40, level='fault_enumeration', no_random=True),
     # clone in every reachable state, under hashers that change the hash-map iteration order
     'C16': dict(kinds=['raw', 'slru', 'wtlfu'], flags=['--clone', '--no-ro'],
                 variants=[('tracked', 'std'), ('tracked', 'zero'), ('tracked', 'ident')], no_random_only=True, quick_max_states=1500),
@@ -71,7 +74,7 @@ def stage_generate(job, work, binary, flags, seed, variant):
         extra_max = ['--max-states', str(ms)] if ms else []
     job['driver'] = drv
     extra = list(extra_max) + ['--keytype', variant[0], '--hasher', variant[1]]
-    if inst.get('random'):
+    if inst.get('random') and not job.get('no_random'):
         n, ln = inst['random']
         extra += ['--random', '%d,%d,%d' % (n, ln, seed + 1), '--dump-hists', work.path(tag + '.hists')]
         job['hists'] = work.path(tag + '.hists')
@@ -142,8 +145,8 @@ def run_list_prop(prop, tier, seed, only_kinds=None, harness_variant='std', coll
                 if vi > 0 and not spec.get('all_variants_full'):
                     insts = insts[:1]            # extra key-type / hasher instantiations: first instances only
                 for inst in insts:
-                    jobs.append(dict(kind=kind, inst=inst, variant=variant,
-                                     quick_max_states=spec.get('quick_max_states') if tier == 'quick' else None))
+                    jobs.append(dict(kind=kind, inst=inst, variant=variant, no_random=spec.get('no_random'),
+                                     quick_max_states=spec.get('quick_max_states') if tier == 'quick' else spec.get('thorough_max_states')))
             if vi == 0 and not spec.get('no_random_only') and not inst_limit:
                 for ro in RANDOM_ONLY[tier]:
                     if ro['kind'] in kinds:
@@ -220,7 +223,7 @@ def finish(prop, tier, seed, jobs, viols, t0, work):
         events_by_op_and_result=by_kind,
         violations_seen=[dict(kind=d.get('kind'), instance=d.get('instance'), op=d.get('op'), path=d.get('path')) for d in viols[:20]],
     )
-    vlib.write_evidence(prop, tier, seed, 'model_checking', coverage, time.time() - t0, len(new), ASSUMPTIONS)
+    vlib.write_evidence(prop, tier, seed, LIST_PROPS.get(prop, {}).get('level', 'model_checking'), coverage, time.time() - t0, len(new), ASSUMPTIONS)
     for d in new[:10]:
         rp = write_replay(prop, dict(d, property=prop))
         print('VIOLATION property=%s replay=%s' % (prop, rp), flush=True)
